@@ -1100,4 +1100,65 @@ Proof.
   replace (N.min r m) with m by lia. rewrite !seg_nil by lia. reflexivity.
 Qed.
 
+(* ---- the bit iterator: the duplicate-skipping scans of its parent *)
+
+Lemma q_skip_fwd a it j k : it_repr it j k ->
+  exists it' j' found, run_loop (sv_fuel sv) (skip_fwd_step md sv a) it = Ok (it', found) /\ it_repr it' j' k /\
+    ((exists i, found = Some (V i) /\ j <= i /\ i < k /\ a < V i /\ (forall i', j <= i' -> i' < i -> V i' <= a) /\ j' = i + 1) \/
+     (found = None /\ (forall i', j <= i' -> i' < k -> V i' <= a) /\ k <= j')).
+Proof.
+  intros Hit. assert (Hkm : k <= m) by apply Hit.
+  destruct (run_loop_inv (skip_fwd_step md sv a)
+              (fun itc d => exists c, it_repr itc c k /\ j <= c /\ (forall i', j <= i' -> i' < c -> V i' <= a) /\ d = k - c)
+              (fun r => exists j', it_repr (fst r) j' k /\
+                 ((exists i, snd r = Some (V i) /\ j <= i /\ i < k /\ a < V i /\ (forall i', j <= i' -> i' < i -> V i' <= a) /\ j' = i + 1) \/
+                  (snd r = None /\ (forall i', j <= i' -> i' < k -> V i' <= a) /\ k <= j'))))
+           with (blocks := sv_fuel sv) (s := it) (k := k - j) as [r [Hr Hp]].
+  - intros itc d [c [Hc [Hjc [Hsk Hd]]]]. unfold skip_fwd_step.
+    destruct (N.lt_ge_cases c k) as [Hck|Hck].
+    + destruct (q_it_next itc c k Hc Hck) as [it' [Hnx Hit']]. rewrite Hnx. cbn [bind].
+      destruct (N.ltb_spec a (V c)) as [Hgt|Hle].
+      * left. eexists. split; [reflexivity|]. cbn [fst snd]. exists (c + 1). split; [exact Hit'|].
+        left. exists c. repeat split; try assumption; lia.
+      * right. exists it', (k - (c + 1)). split; [reflexivity|]. split; [|lia].
+        exists (c + 1). split; [exact Hit'|]. split; [lia|]. split; [|reflexivity].
+        intros i' Hi1 Hi2. destruct (N.eq_dec i' c) as [->|]; [exact Hle|apply Hsk; lia].
+    + rewrite (q_it_next_none itc c k Hc Hck). cbn [bind]. left. eexists. split; [reflexivity|]. cbn [fst snd].
+      exists c. split; [exact Hc|]. right. split; [reflexivity|]. split; [intros i' Hi1 Hi2; apply Hsk; lia|exact Hck].
+  - exists j. split; [exact Hit|]. split; [lia|]. split; [intros; lia|reflexivity].
+  - pose proof q_fuel. lia.
+  - destruct r as [it' found]. cbn [fst snd] in Hp. destruct Hp as [j' [Hit' Hcases]].
+    exists it', j', found. split; [exact Hr|]. split; [exact Hit'|exact Hcases].
+Qed.
+
+Lemma q_skip_bwd lim it j k : it_repr it j k ->
+  exists it' k' found, run_loop (sv_fuel sv) (skip_bwd_step md sv lim) it = Ok (it', found) /\ it_repr it' j k' /\
+    ((exists i, found = Some (V i) /\ j <= i /\ i < k /\ V i < lim /\ (forall i', i < i' -> i' < k -> lim <= V i') /\ k' = i) \/
+     (found = None /\ (forall i', j <= i' -> i' < k -> lim <= V i') /\ k' <= j)).
+Proof.
+  intros Hit.
+  destruct (run_loop_inv (skip_bwd_step md sv lim)
+              (fun itc d => exists c, it_repr itc j c /\ c <= k /\ (forall i', c <= i' -> i' < k -> lim <= V i') /\ d = c)
+              (fun r => exists k', it_repr (fst r) j k' /\
+                 ((exists i, snd r = Some (V i) /\ j <= i /\ i < k /\ V i < lim /\ (forall i', i < i' -> i' < k -> lim <= V i') /\ k' = i) \/
+                  (snd r = None /\ (forall i', j <= i' -> i' < k -> lim <= V i') /\ k' <= j))))
+           with (blocks := sv_fuel sv) (s := it) (k := k) as [r [Hr Hp]].
+  - intros itc d [c [Hc [Hck [Hsk Hd]]]]. unfold skip_bwd_step.
+    destruct (N.lt_ge_cases j c) as [Hjc|Hjc].
+    + destruct (q_it_back itc j c Hc Hjc) as [it' [Hnx Hit']]. rewrite Hnx. cbn [bind].
+      destruct (N.ltb_spec (V (c - 1)) lim) as [Hlt|Hge].
+      * left. eexists. split; [reflexivity|]. cbn [fst snd]. exists (c - 1). split; [exact Hit'|].
+        left. exists (c - 1). split; [reflexivity|]. split; [lia|]. split; [lia|]. split; [exact Hlt|]. split; [|reflexivity].
+        intros i' Hi1 Hi2. apply Hsk; lia.
+      * right. exists it', (c - 1). split; [reflexivity|]. split; [|lia].
+        exists (c - 1). split; [exact Hit'|]. split; [lia|]. split; [|reflexivity].
+        intros i' Hi1 Hi2. destruct (N.eq_dec i' (c - 1)) as [->|]; [exact Hge|apply Hsk; lia].
+    + rewrite (q_it_back_none itc j c Hc Hjc). cbn [bind]. left. eexists. split; [reflexivity|]. cbn [fst snd].
+      exists c. split; [exact Hc|]. right. split; [reflexivity|]. split; [intros i' Hi1 Hi2; apply Hsk; lia|exact Hjc].
+  - exists k. split; [exact Hit|]. split; [lia|]. split; [intros; lia|reflexivity].
+  - assert (k <= m) by apply Hit. pose proof q_fuel. lia.
+  - destruct r as [it' found]. cbn [fst snd] in Hp. destruct Hp as [k' [Hit' Hcases]].
+    exists it', k', found. split; [exact Hr|]. split; [exact Hit'|exact Hcases].
+Qed.
+
 End Queries.
